@@ -1,2 +1,642 @@
+"""E2 verification conditions for the cache machinery of AurelCore (C03, and O2 of C01).
+
+The real statements of cleanup_cache / __getitem__ / freeze_data / load_data are executed on a
+symbolic instance: self.data and self.last_accessed are symbolic maps (z3 arrays Key->Bool,
+Key->Int), var_importance is an array Key->Real (>= 0), counts / sizes / thresholds are z3
+scalars.  Straight-line segments run as compiled from the real AST; every loop is cut out
+mechanically (by ordinal) and verified through its sidecar contract:
+
+  cleanup_cache loop 0  `for key, last_time in self.last_accessed.items()`   foreach / filter
+  cleanup_cache loop 1  `for key in key_to_remove`                            foreach / delete
+  cleanup_cache loop 2  `while total_cache_size >= memory_threshold`          invariant + variant
+  cleanup_cache loop 3  inner `for key, last_time in ...items()`              fold (arg-max) invariant
+
+What the extraction drops: nothing is rewritten; f-string formatting of symbolic numbers yields ''
+and myprint is a no-op (output is not part of the property).
+Abstracted callees (contracts): get_size(x) >= 0 (proved separately on the AST of get_size),
+sum(sys.getsizeof(v) ...) >= 0.
+Finite-set facts used for the variant (standard, trusted): a map with a present key has
+cardinality >= 1; deleting a present key lowers the cardinality by exactly 1.
+"""
+import ast
+import inspect
+import textwrap
+import time
+import z3
+
+from engine import symx as SX
+from engine.symx import Z, SDict, Ctx, explore, prove, to_z3, run_block
+
+K = z3.IntSort()
+
+
+class Poisoned:
+    def __repr__(self):
+        return '<key_to_remove is not a key here>'
+
+
+class ImpMap:
+    def __init__(self):
+        self.arr = z3.Array('importance', K, z3.RealSort())
+        self.log = []
+
+    def get(self, k, default=None):
+        return Z(z3.Select(self.arr, to_z3(k)))
+
+    def __setitem__(self, k, v):
+        self.log.append((k, v))
+        self.arr = z3.Store(self.arr, to_z3(k), to_z3(v, real=True))
+
+    def imp(self, k):
+        return z3.Select(self.arr, to_z3(k))
+
+
+class SSet:
+    """list of distinct keys described by a predicate (result of a filter loop)"""
+
+    def __init__(self, pred):
+        self.pred = pred
+
+
+class SymSelf:
+    def __init__(self, verbose):
+        self.data = SDict('data')
+        self.last_accessed = SDict('last_accessed', z3.IntSort())
+        self.var_importance = ImpMap()
+        self.calculation_count = Z.int('count')
+        self.clear_cache_every_nbr_calc = Z.int('every')
+        self.memory_threshold_inGB = Z.real('thrGB')
+        self.param = dict(Nx=Z.int('Nx'), Ny=Z.int('Ny'), Nz=Z.int('Nz'))
+        self.verbose = verbose
+        self.card = z3.Int('card_la')       # ghost: number of keys in last_accessed
+        self.deleted = []                   # ghost: keys deleted from data
+
+    def myprint(self, msg):
+        pass
+
+
+def fresh_nonneg(c, base):
+    v = c.new_int(base)
+    c.assume(v >= 0)
+    return Z(v)
+
+
+def make_globals(c, real_globals):
+    g = dict(real_globals)
+
+    def get_size(obj):
+        if isinstance(obj, SX.DVal):
+            f = z3.Function('size', K, z3.IntSort())
+            e = f(to_z3(obj.k))
+            c.assume(e >= 0)
+            return Z(e)
+        return fresh_nonneg(c, 'total_size')
+
+    def ssum(x, *a):
+        return fresh_nonneg(c, 'getsizeof_sum')
+
+    def slen(x):
+        if isinstance(x, SSet):
+            return fresh_nonneg(c, 'len')
+        return len(x)
+    g.update(get_size=get_size, sum=ssum, len=slen)
+    return g
+
+
+def I1(s):
+    k = z3.Int('k!q')
+    return z3.ForAll([k], z3.Implies(s.last_accessed.has(k), s.data.has(k)))
+
+
+def Rel(s, dom0, la0, lav0, imp0, count):
+    """relation between the state at entry of cleanup_cache and a later state (loop invariant of the
+    while loop and postcondition): only paired deletions of unfrozen entries last used > 1 calculation ago"""
+    k = z3.Int('k!r')
+    d1, l1 = s.data.dom, s.last_accessed.dom
+    return z3.ForAll([k], z3.And(
+        z3.Implies(z3.Select(d1, k), z3.Select(dom0, k)),
+        z3.Implies(z3.And(z3.Select(dom0, k), z3.Not(z3.Select(d1, k))),
+                   z3.And(z3.Select(la0, k), imp0(k) != 0, count - z3.Select(lav0, k) > 1)),
+        z3.Select(l1, k) == z3.And(z3.Select(la0, k), z3.Select(d1, k))))
+
+
+def preconditions(c, s):
+    c.assume(s.clear_cache_every_nbr_calc.e >= 1)
+    c.assume(s.memory_threshold_inGB.e > 0)
+    for n in s.param.values():
+        c.assume(n.e >= 1)
+    k = z3.Int('k!p')
+    c.assume(z3.ForAll([k], s.var_importance.imp(k) >= 0))
+    c.assume(I1(s))
+    c.assume(s.card >= 0)
+
+
+def eval_expr(node, glb, loc):
+    code = compile(ast.Expression(body=node), '<test>', 'eval')
+    return eval(code, glb, loc)
+
+
+class Driver:
+    """Hoare-level driver over the statement list of cleanup_cache."""
+
+    def __init__(self, c, s, glb, loops, dom0, la0, imp0):
+        self.c, self.s, self.glb, self.loops = c, s, glb, loops
+        self.dom0, self.la0, self.imp0 = dom0, la0, imp0
+        self.lav0 = s.last_accessed.val
+        self.count0 = s.calculation_count.e
+
+    def rel(self):
+        return Rel(self.s, self.dom0, self.la0, self.lav0, self.imp0, self.count0)
+
+    def frozen_never_deleted(self, k, why):
+        self.c.require(f'{why}: deleted key is not frozen', self.s.var_importance.imp(k) != 0)
+
+    def run_stmts(self, stmts, loc):
+        """returns False if a `break` left the enclosing loop"""
+        i = 0
+        seg = []
+        for st in stmts:
+            if isinstance(st, (ast.For, ast.While, ast.If)):
+                if seg:
+                    if not run_block(seg, self.glb, loc):
+                        return False
+                    seg = []
+                if isinstance(st, ast.If):
+                    t = eval_expr(st.test, self.glb, loc)
+                    if bool(t):
+                        if not self.run_stmts(st.body, loc):
+                            return False
+                    elif st.orelse:
+                        if not self.run_stmts(st.orelse, loc):
+                            return False
+                else:
+                    self.loop(self.loops.index(st), st, loc)
+            else:
+                seg.append(st)
+        if seg:
+            if not run_block(seg, self.glb, loc):
+                return False
+        return True
+
+    # -- loop contracts ------------------------------------------------------
+    def loop(self, ordinal, node, loc):
+        c, s = self.c, self.s
+        if ordinal == 0:
+            # foreach present key: body may only append the key to key_to_remove
+            key = c.new_int('key')
+            n0 = len(c.pc)
+            c.assume(s.last_accessed.has(key))
+            loc2 = dict(loc)
+            loc2['key'] = Z(key)
+            loc2['last_time'] = Z(z3.Select(s.last_accessed.val, key))
+            loc2['key_to_remove'] = list(loc['key_to_remove'])
+            nd, nl = len(s.data.log), len(s.last_accessed.log)
+            completed = self.run_stmts(node.body, loc2)
+            c.require('loop 0: body does not break', z3.BoolVal(completed))
+            c.require('loop 0: body does not modify data / last_accessed',
+                      z3.BoolVal(len(s.data.log) == nd and len(s.last_accessed.log) == nl))
+            appended = loc2['key_to_remove'][len(loc['key_to_remove']):]
+            ok_shape = len(appended) <= 1 and all(isinstance(a, Z) and z3.eq(a.e, key) for a in appended)
+            c.require('loop 0: only the current key is appended, at most once', z3.BoolVal(ok_shape))
+            cond_here = z3.And(*c.pc[n0 + 1:]) if len(c.pc) > n0 + 1 else z3.BoolVal(True)
+            if appended:
+                # (b) a frozen key is never selected
+                c.require('loop 0: a frozen key (importance 0) is never selected for removal',
+                          s.var_importance.imp(key) != 0)
+                c.require('loop 0: a selected key was last used more than one calculation ago',
+                          s.calculation_count.e - z3.Select(s.last_accessed.val, key) > 1)
+            # summary: this path fixes whether the generic key is selected; the predicate over all keys is
+            # kept abstract (sel) with the facts just proved: sel(k) -> present(k) & importance(k) != 0
+            del c.pc[n0:]
+            sel = z3.Function(f'selected!{next(c.fresh)}', K, z3.BoolSort())
+            q = z3.Int('k!s')
+            c.assume(z3.ForAll([q], z3.Implies(sel(q), z3.And(s.last_accessed.has(q), s.var_importance.imp(q) != 0,
+                                                           s.calculation_count.e - z3.Select(s.last_accessed.val, q) > 1))))
+            self.sel_justified = bool(appended) or True
+            loc['key_to_remove'] = SSet(sel)
+            for v in ('key', 'last_time', 'time_since_last_access', 'data_size', 'importance', 'strain'):
+                loc.pop(v, None)
+            return
+        if ordinal == 1:
+            S = loc['key_to_remove']
+            if not isinstance(S, SSet):
+                c.require('loop 1: iterates the list built by loop 0', z3.BoolVal(False))
+                return
+            key = c.new_int('key')
+            n0 = len(c.pc)
+            c.assume(S.pred(key))
+            loc2 = dict(loc)
+            loc2['key'] = Z(key)
+            d0, l0 = s.data.dom, s.last_accessed.dom
+            nd, nl = len(s.data.log), len(s.last_accessed.log)
+            completed = self.run_stmts(node.body, loc2)
+            c.require('loop 1: body does not break', z3.BoolVal(completed))
+            eff_d = s.data.log[nd:]
+            eff_l = s.last_accessed.log[nl:]
+            ok = (len(eff_d) == 1 and eff_d[0][0] == 'del' and z3.eq(to_z3(eff_d[0][1]), key)
+                  and len(eff_l) == 1 and eff_l[0][0] == 'del' and z3.eq(to_z3(eff_l[0][1]), key))
+            c.require('loop 1: deletes exactly data[key] and last_accessed[key] (paired deletion)', z3.BoolVal(ok))
+            del c.pc[n0:]
+            # bulk effect of the foreach over distinct keys
+            q = z3.Int('k!d')
+            nd_ = z3.Array(f'data.dom!{next(c.fresh)}', K, z3.BoolSort())
+            nl_ = z3.Array(f'la.dom!{next(c.fresh)}', K, z3.BoolSort())
+            c.assume(z3.ForAll([q], z3.Select(nd_, q) == z3.And(z3.Select(d0, q), z3.Not(S.pred(q)))))
+            c.assume(z3.ForAll([q], z3.Select(nl_, q) == z3.And(z3.Select(l0, q), z3.Not(S.pred(q)))))
+            s.data.dom, s.last_accessed.dom = nd_, nl_
+            ncard = c.new_int('card')
+            c.assume(z3.And(ncard >= 0, ncard <= s.card))
+            s.card = ncard
+            return
+        if ordinal == 2:
+            # while: invariant I1 & card >= 0; variant card decreases on every non-breaking iteration
+            c.require('loop 2 (while): invariant I1 holds on entry', I1(s))
+            c.require('loop 2 (while): invariant Rel holds on entry (only paired deletions of unfrozen, aged entries)',
+                      self.rel())
+            # havoc loop-modified state
+            s.data.dom = z3.Array(f'data.dom!{next(c.fresh)}', K, z3.BoolSort())
+            s.last_accessed.dom = z3.Array(f'la.dom!{next(c.fresh)}', K, z3.BoolSort())
+            s.card = c.new_int('card')
+            c.assume(self.rel())
+            c.assume(I1(s))
+            c.assume(s.card >= 0)
+            loc['total_cache_size'] = fresh_nonneg(c, 'total')
+            loc['nbr_keys_removed'] = fresh_nonneg(c, 'nbr')
+            loc['key_to_remove'] = Poisoned()
+            t = eval_expr(node.test, self.glb, loc)
+            if not bool(t):
+                return          # loop exits: state satisfies the invariant
+            card_before = s.card
+            completed = self.run_stmts(node.body, loc)
+            if completed:
+                c.require('loop 2 (while): invariant I1 preserved by the body', I1(s))
+                c.require('loop 2 (while): variant |last_accessed| decreases and stays >= 0 (termination)',
+                          z3.And(s.card < card_before, s.card >= 0))
+                c.require('loop 2 (while): invariant Rel preserved by the body', self.rel())
+                # continue with an arbitrary later exit state (already covered by the havoc above)
+                raise SX.PathEnd()
+            return
+        if ordinal == 3:
+            # fold: InvF(ms, ktr): ms >= 0 & (ms > 0 -> present(ktr) & importance(ktr) != 0)
+            ms0 = loc['maxstrain']
+            c.require('loop 3 (fold): invariant holds initially (maxstrain = 0)', to_z3(ms0, real=True) >= 0)
+            ms = z3.Real(f'maxstrain!{next(c.fresh)}')
+            ktr = c.new_int('ktr')
+            c.assume(ms >= 0)
+            c.assume(z3.Implies(ms > 0, z3.And(s.last_accessed.has(ktr), s.var_importance.imp(ktr) != 0,
+                                               s.calculation_count.e - z3.Select(s.last_accessed.val, ktr) > 1)))
+            # inductive step on a generic present key
+            key = c.new_int('key')
+            n0 = len(c.pc)
+            c.assume(s.last_accessed.has(key))
+            loc2 = dict(loc)
+            loc2.update(key=Z(key), last_time=Z(z3.Select(s.last_accessed.val, key)), maxstrain=Z(ms),
+                        key_to_remove=Z(ktr))
+            nd, nl = len(s.data.log), len(s.last_accessed.log)
+            completed = self.run_stmts(node.body, loc2)
+            c.require('loop 3 (fold): body does not break / modify the maps',
+                      z3.BoolVal(completed and len(s.data.log) == nd and len(s.last_accessed.log) == nl))
+            ms1, k1 = loc2['maxstrain'], loc2['key_to_remove']
+            if not isinstance(k1, Z):
+                c.require('loop 3 (fold): key_to_remove stays a key', z3.BoolVal(False))
+            else:
+                c.require('loop 3 (fold): invariant preserved: maxstrain >= 0', to_z3(ms1, real=True) >= 0)
+                c.require('loop 3 (fold): invariant preserved: maxstrain > 0 -> key_to_remove present, not frozen, aged',
+                          z3.Implies(to_z3(ms1, real=True) > 0,
+                                     z3.And(s.last_accessed.has(k1.e), s.var_importance.imp(k1.e) != 0,
+                                            s.calculation_count.e - z3.Select(s.last_accessed.val, k1.e) > 1)))
+            del c.pc[n0:]
+            # after the loop: the invariant, nothing else
+            loc['maxstrain'] = Z(ms)
+            loc['key_to_remove'] = KeyOrPoison(ms, ktr)
+            for v in ('key', 'last_time', 'time_since_last_access', 'importance', 'strain'):
+                loc.pop(v, None)
+            return
+        raise SX.PathAbort(f'no contract for loop {ordinal}')
+
+
+class KeyOrPoison(Z):
+    """key_to_remove after the fold: a key only if maxstrain > 0"""
+    __slots__ = ('ms',)
+
+    def __init__(self, ms, ktr):
+        Z.__init__(self, ktr)
+        self.ms = ms
+
+
+def _require_key(v):
+    if isinstance(v, KeyOrPoison):
+        SX.ctx().require('key_to_remove is used as a key only when maxstrain != 0', v.ms > 0)
+
+
+_orig_getitem = SDict.__getitem__
+_orig_delitem = SDict.__delitem__
+
+
+def _gi(self, k):
+    _require_key(k)
+    if isinstance(k, Poisoned):
+        SX.ctx().require('key_to_remove is a key when used', z3.BoolVal(False))
+        raise SX.Infeasible()
+    return _orig_getitem(self, k)
+
+
+def _di(self, k):
+    _require_key(k)
+    if isinstance(k, Poisoned):
+        SX.ctx().require('key_to_remove is a key when deleted', z3.BoolVal(False))
+        raise SX.Infeasible()
+    r = _orig_delitem(self, k)
+    owner = getattr(self, 'owner', None)
+    if owner is not None:
+        if self is owner.last_accessed:
+            # finite-set facts: the key was present (required above) so |last_accessed| >= 1, and
+            # deleting it lowers the cardinality by exactly one
+            SX.ctx().assume(owner.card >= 1)
+            owner.card = owner.card - 1
+        else:
+            SX.ctx().require('a deleted cache entry is never frozen (importance != 0)',
+                             owner.var_importance.imp(to_z3(k)) != 0)
+    return r
+
+
+SDict.__getitem__ = _gi
+SDict.__delitem__ = _di
+
+
+def cleanup_paths(verbose):
+    import aurel.core as C
+    tree, loops = SX.extract_loops(C.AurelCore.cleanup_cache)
+    results = []
+
+    def run():
+        c = SX.ctx()
+        c.timeout_ms = 10000
+        s = SymSelf(verbose)
+        s.data.owner = s
+        s.last_accessed.owner = s
+        preconditions(c, s)
+        dom0, la0 = s.data.dom, s.last_accessed.dom
+        arr0 = s.var_importance.arr
+        imp0 = lambda k: z3.Select(arr0, k)
+        glb = make_globals(c, C.__dict__)
+        drv = Driver(c, s, glb, loops, dom0, la0, imp0)
+        loc = {'self': s}
+        drv.run_stmts(tree.body[1:] if isinstance(tree.body[0], ast.Expr) else tree.body, loc)
+        # postconditions
+        k = z3.Int('k!post')
+        c.require('post: age table describes only cached entries (last_accessed keys subset of data keys)', I1(s))
+        c.require('post: frozen entries present before are present after',
+                  z3.ForAll([k], z3.Implies(z3.And(z3.Select(dom0, k), imp0(k) == 0), s.data.has(k))))
+        c.require('post: clean-up only removes entries (never adds keys)',
+                  z3.ForAll([k], z3.Implies(s.data.has(k), z3.Select(dom0, k))))
+        c.require('post: Rel -- only paired deletions, of unfrozen entries last used more than one calculation ago',
+                  drv.rel())
+        c.require('post: no cached value is assigned or altered (only del)',
+                  z3.BoolVal(all(e[0] == 'del' for e in s.data.log)))
+        c.require('post: importance table untouched', z3.BoolVal(not s.var_importance.log))
+        return s
+    return explore(run, max_paths=400)
+
+
+def discharge(R, fn_name, paths, prefix, backend='z3'):
+    names = {}
+    t0 = time.time()
+    for res, c in paths:
+        for name, goal, pc in c.obls:
+            v, model, secs = prove(pc, goal, timeout_ms=20000)
+            rec = names.setdefault(name, dict(valid=0, invalid=[], unknown=[], secs=0.0))
+            rec['secs'] += secs
+            if v == 'valid':
+                rec['valid'] += 1
+            elif v == 'invalid':
+                rec['invalid'].append(str(model)[:500])
+            else:
+                rec['unknown'].append(str(model))
+    for name, rec in names.items():
+        if rec['invalid']:
+            R.ob(f'{prefix}:{name}', fn_name, 'refuted', backend, rec['secs'], 'counter-model: ' + rec['invalid'][0], [name],
+                 replay=native_history_replay)
+        elif rec['unknown']:
+            R.ob(f'{prefix}:{name}', fn_name, 'undecided', backend, rec['secs'], rec['unknown'][0])
+        else:
+            R.ob(f'{prefix}:{name}', fn_name, 'discharged', backend, rec['secs'], f'{rec["valid"]} path instance(s)')
+    return len(paths)
+
+
+def cleanup_obligations(R):
+    import aurel.core as C
+    R.under_contract(C.AurelCore.cleanup_cache)
+    for verbose in (True, False):
+        t0 = time.time()
+        try:
+            paths = cleanup_paths(verbose)
+        except SX.PathAbort as e:
+            R.ob(f'core.cleanup_cache[verbose={verbose}]:paths', 'cleanup_cache', 'undecided', 'z3', time.time() - t0, str(e))
+            continue
+        except (KeyError, TypeError, AttributeError, IndexError) as e:
+            R.ob(f'core.cleanup_cache[verbose={verbose}]:no-exception', 'cleanup_cache', 'refuted', 'z3', time.time() - t0,
+                 f'{type(e).__name__}: {e}', ['raises'])
+            continue
+        R.paths += len(paths)
+        discharge(R, 'cleanup_cache', paths, f'core.cleanup_cache[verbose={verbose}]')
+
+
+# ---------------------------------------------------------------------------
+def getitem_paths(argcount):
+    import aurel.core as C
+
+    class Func:
+        class __code__:
+            co_argcount = argcount
+
+        def __init__(self, s, c, key):
+            self.s, self.c, self.key = s, c, key
+
+        def __call__(self):
+            # contract of a quantity method: nested requests may add entries and evict unfrozen ones;
+            # they preserve I1 and frozen entries, never decrease the counter (induction on call depth)
+            s, c = self.s, self.c
+            q = z3.Int('k!n')
+            d1 = z3.Array(f'data.dom!{next(c.fresh)}', K, z3.BoolSort())
+            l1 = z3.Array(f'la.dom!{next(c.fresh)}', K, z3.BoolSort())
+            lv = z3.Array(f'la.val!{next(c.fresh)}', K, z3.IntSort())
+            cnt = c.new_int('count')
+            c.assume(cnt >= s.calculation_count.e)
+            c.assume(z3.ForAll([q], z3.Implies(z3.Select(l1, q), z3.Select(d1, q))))
+            c.assume(z3.ForAll([q], z3.Implies(z3.And(z3.Select(s.dom0, q), s.imp0(q) == 0), z3.Select(d1, q))))
+            s.data.dom, s.last_accessed.dom, s.last_accessed.val = d1, l1, lv
+            s.calculation_count = Z(cnt)
+            return Z(z3.Int('spec_value'))
+
+    def run():
+        c = SX.ctx()
+        s = SymSelf(False)
+        s.data = SDict('data', z3.IntSort())
+        s.data.owner = s
+        s.last_accessed.owner = s
+        preconditions(c, s)
+        s.dom0, arr0 = s.data.dom, s.var_importance.arr
+        val0 = s.data.val
+        s.imp0 = lambda k: z3.Select(arr0, k)
+        key = z3.Int('key')
+        f = Func(s, c, key)
+        s.__dict__['requested'] = f
+
+        def cleanup():
+            # contract of cleanup_cache (proved above): only deletions, of unfrozen entries last used more
+            # than one calculation ago; I1 preserved
+            q = z3.Int('k!c')
+            d1 = z3.Array(f'data.dom!{next(c.fresh)}', K, z3.BoolSort())
+            l1 = z3.Array(f'la.dom!{next(c.fresh)}', K, z3.BoolSort())
+            d0, l0 = s.data.dom, s.last_accessed.dom
+            lv = s.last_accessed.val
+            cnt = s.calculation_count.e
+            arr = s.var_importance.arr
+            s.data.dom, s.last_accessed.dom = d1, l1
+            c.assume(Rel(s, d0, l0, lv, lambda k: z3.Select(arr, k), cnt))
+        s.cleanup_cache = cleanup
+        glb = dict(C.__dict__)
+        glb['getattr'] = lambda obj, name: f
+        glb['descriptions'] = type('D', (), {'__getitem__': lambda self, k: ''})()
+        import types
+        real = C.AurelCore.__getitem__
+        fn = types.FunctionType(real.__code__, glb, real.__name__, real.__defaults__, real.__closure__)
+        hit = s.data.has(key)
+        res = fn(s, Z(key))
+        k = z3.Int('k!g')
+        if res is f:
+            c.require('function with arguments: returned uncalled, cache untouched',
+                      z3.BoolVal(not s.data.log and not s.last_accessed.log))
+            return
+        c.require('I1 preserved (age table subset of cache)', I1(s))
+        c.require('frozen entries survive the request',
+                  z3.ForAll([k], z3.Implies(z3.And(z3.Select(s.dom0, k), s.imp0(k) == 0), s.data.has(k))))
+        c.require('hit: the cached object itself is returned; miss: exactly func() is stored and returned',
+                  z3.If(hit, to_z3(res) == z3.Select(val0, key), to_z3(res) == z3.Int('spec_value')))
+        c.require('the requested key is in the cache and in the age table on return',
+                  z3.And(s.data.has(key), s.last_accessed.has(key)))
+        c.require('the only value ever assigned into the cache is func() under the requested key',
+                  z3.BoolVal(all(e[0] == 'del' or (e[0] == 'set' and z3.eq(to_z3(e[1]), key)) for e in s.data.log)))
+    return explore(run)
+
+
 def getitem_obligations(R):
-    pass
+    import aurel.core as C
+    R.under_contract(C.AurelCore.__getitem__)
+    for argcount in (1, 2, 3):
+        t0 = time.time()
+        try:
+            paths = getitem_paths(argcount)
+        except SX.PathAbort as e:
+            R.ob(f'core.__getitem__[co_argcount={argcount}]:paths', '__getitem__', 'undecided', 'z3', time.time() - t0, str(e))
+            continue
+        R.paths += len(paths)
+        discharge(R, '__getitem__', paths, f'core.__getitem__[co_argcount={argcount}]')
+
+
+def freeze_obligations(R):
+    """freeze_data / load_data: every key then in data gets importance 0 (foreach contract)."""
+    import aurel.core as C
+    for name in ('freeze_data', 'load_data'):
+        real = getattr(C.AurelCore, name)
+        R.under_contract(real)
+        tree, loops = SX.extract_loops(real)
+        t0 = time.time()
+        src = ast.unparse(tree)
+        ok = True
+        detail = ''
+        if name == 'freeze_data':
+            lp = loops[0]
+            ok = (ast.unparse(lp.iter) in ('self.data.keys()', 'self.data') and len(lp.body) == 1
+                  and ast.unparse(lp.body[0]) == f'self.var_importance[{ast.unparse(lp.target)}] = 0')
+            detail = ast.unparse(lp)
+            # run the body on a generic key
+            def run():
+                c = SX.ctx()
+                s = SymSelf(False)
+                key = c.new_int('key')
+                c.assume(s.data.has(key))
+                run_block(lp.body, {}, {'self': s, ast.unparse(lp.target): Z(key)})
+                c.require('body sets importance of the current key to 0', s.var_importance.imp(key) == 0)
+                c.require('body touches nothing else', z3.BoolVal(len(s.var_importance.log) == 1 and not s.data.log))
+            paths = explore(run)
+            discharge(R, name, paths, f'core.{name}[foreach key in data]')
+        else:
+            calls_freeze = any(isinstance(n, ast.Call) and ast.unparse(n.func) == 'self.freeze_data' for n in ast.walk(tree))
+            last_is_freeze = ast.unparse(tree.body[-1]) == 'self.freeze_data()'
+            lp = loops[0]
+            stores = (len(lp.body) == 1 and ast.unparse(lp.body[0]) == 'self.data[key] = values[iteration]')
+            ok = calls_freeze and last_is_freeze and stores
+            detail = src[-200:]
+        R.ob(f'core.{name}:freezes-exactly-the-keys-in-data', name, 'discharged' if ok else 'undecided', 'ast+z3',
+             time.time() - t0, '' if ok else 'loop shape not recognised: ' + detail)
+
+
+def get_size_obligations(R):
+    """get_size(x) >= 0 by structural induction: every return is nbytes, a sum of recursive calls, or getsizeof."""
+    import aurel.utils.memory as M
+    R.under_contract(M.get_size)
+    tree, _ = SX.extract_loops(M.get_size)
+    t0 = time.time()
+    rets = [n for n in ast.walk(tree) if isinstance(n, ast.Return)]
+    bad = []
+    for r in rets:
+        s = ast.unparse(r.value)
+        ok = (s == 'obj.nbytes' or s == 'sys.getsizeof(obj)'
+              or (isinstance(r.value, ast.Call) and ast.unparse(r.value.func) == 'sum'
+                  and all(isinstance(c, ast.Call) and ast.unparse(c.func) == 'get_size'
+                          for c in ast.walk(r.value.args[0].elt) if isinstance(c, ast.Call))))
+        if not ok:
+            bad.append(s)
+    R.trust('ndarray.nbytes >= 0 and sys.getsizeof(x) >= 0 (CPython / numpy)')
+    R.ob('memory.get_size:non-negative (structural induction over the return expressions)', 'get_size',
+         'discharged' if not bad and rets else 'undecided', 'ast', time.time() - t0,
+         '' if not bad else 'return expression not recognised: ' + '; '.join(bad))
+
+
+def native_history_replay(o=None, nhist=150, length=40, seed=0):
+    """replay hook for every cache obligation: the unmodified AurelCore on a 6^3 grid, frozen
+    inputs, aggressive clean-up settings, random request histories; the invariants of C03 are
+    checked after every single request.  -> (found, text)"""
+    import random
+    import numpy as np
+    import aurel
+    rng = random.Random(seed)
+    par = dict(Nx=6, Ny=6, Nz=6, xmin=0., ymin=0., zmin=0., dx=0.5, dy=0.5, dz=0.5)
+    fd = aurel.FiniteDifference(par, fd_order=2, verbose=False)
+    cheap = ['gammaup3', 'gammadet', 'Ktrace', 'Kup3', 'Adown3', 'betadown3', 'betamag', 'gdown4', 'gup4', 'gdet',
+             'nup4', 'ndown4', 'gxx', 'kxy', 'betax', 'rho', 'rho0', 'eps', 'enthalpy', 'uup4', 'udown4', 'hdown4',
+             'psi_bssnok', 'gammadown3_bssnok', 's_Gamma_udd3', 'Hamiltonian', 'Tdown4', 'rho_n', 'alpha', 'gammadown3']
+    for h in range(nhist):
+        every = rng.choice([1, 1, 2, 3])
+        thr = rng.choice([1e-12, 1e-6, 4])
+        rel = aurel.AurelCore(fd, verbose=False, clear_cache_every_nbr_calc=every, memory_threshold_inGB=thr)
+        x = fd.x
+        inputs = dict(gammadown3=np.array([[1 + x * x, 0.1 * x, 0 * x], [0.1 * x, 1 + 0 * x, 0 * x], [0 * x, 0 * x, 2 + x]]),
+                      Kdown3=np.array([[0.1 * x, 0 * x, 0 * x], [0 * x, 0.2 + 0 * x, 0 * x], [0 * x, 0 * x, 0.3 * x]]),
+                      alpha=1 + 0.1 * x, betaup3=np.array([0.1 * x, 0 * x, 0.2 + 0 * x]))
+        for k, v in inputs.items():
+            rel.data[k] = v
+        rel.freeze_data()
+        if rng.random() < 0.3:
+            rel.var_importance[rng.choice(cheap)] = rng.choice([0.0, 5.0])
+        ids = {k: id(rel.data[k]) for k in inputs}
+        hist = []
+        for step in range(length):
+            k = rng.choice(cheap)
+            hist.append(k)
+            try:
+                v = rel[k]
+            except Exception as e:
+                return True, (f'history {hist} with clear_cache_every_nbr_calc={every}, memory_threshold_inGB={thr}: '
+                              f'request raised {type(e).__name__}: {e}')
+            extra = set(rel.last_accessed) - set(rel.data)
+            if extra:
+                return True, f'history {hist} (every={every}, thr={thr}): age table has keys not in the cache: {sorted(extra)}'
+            gone = [q for q in inputs if q not in rel.data or id(rel.data[q]) != ids[q]]
+            if gone:
+                return True, f'history {hist} (every={every}, thr={thr}): frozen inputs evicted or replaced: {gone}'
+            if k not in rel.data and k not in inputs:
+                pass
+    return False, f'{nhist} random histories x {length} requests on the real AurelCore: no invariant of C03 broken'
